@@ -358,11 +358,29 @@ def run_check(tier, seed):
         rc, cres, err = run_harness(hexe, lines, wd, 'main')
         drc, lres = run_driver(lines)
         log('[S4] %d cases, %d script lines on the real library and on model+spec in %.1fs' % (ncase, len(lines), t1.s()))
-        if rc != 0 or drc != 0 or len([x for x in cres if x]) < len(lines) or 'TIMEOUT' in cres:
-            V.broken_tie('harness or driver crashed / timed out',
-                         dict(c_rc=rc, c_lines=len(cres), lean_rc=drc, lean_lines=len(lres), script_lines=len(lines),
-                              last=cres[-3:], stderr=err[-800:]))
+        crashed = None
+        if drc != 0 or len([x for x in lres if x]) < len(lines):
+            V.broken_tie('Lean driver crashed', dict(lean_rc=drc, lean_lines=len(lres), script_lines=len(lines)))
             return V.finish()
+        if rc != 0 or len([x for x in cres if x]) < len(lines) or 'TIMEOUT' in cres:
+            # the library died (assert, segfault, deadlock alarm) inside a call: everything before it is still
+            # compared; the dying call is isolated in a fresh process and, if it dies again, is the failing input
+            done = [x for x in cres if x and x != 'TIMEOUT']
+            k = len(done)
+            if k < len(lines):
+                cid = meta[k][0]
+                case = [l for l, m in zip(lines[:k + 1], meta[:k + 1]) if m[0] == cid and (m[1] in ('S', 'C') or l == lines[k])]
+                case = [l if (l[0] != 'P' or l != lines[k]) else 'C' + l[1:] for l in case if l[0] != 'P' or l == lines[k]]
+                rci, resi, erri = run_harness(hexe, case + ['E'], wd, 'isolate', timeout=120)
+                died = rci != 0 or len([x for x in resi if x]) < len(case) + 1
+                drci, lresi = run_driver(case)
+                doc = lresi[len(case) - 1].split(' | ')[-1] if len(lresi) >= len(case) else ''
+                crashed = dict(script=case, died_again=died, rc=rc, isolated_rc=rci, documented=doc,
+                               stderr=(erri if died else err)[-600:])
+            cres = done + ['e=0 closed chg=0 ex=1 val=0'] * 0
+            lines, meta, lres = lines[:k], meta[:k], lres[:k]
+            log('[S4] the harness process died at script line %d (rc=%s); isolated rerun %s' %
+                (k, rc, 'dies again' if crashed and crashed['died_again'] else 'survives'))
         tie, prop = compare(lines, meta, cres, lres, V, stats, 'np1')
         # ---- 2-rank sample (every k-th case), same comparison
         t2 = Timer()
@@ -431,6 +449,15 @@ def run_check(tier, seed):
         # ---- S5 decide
         new_fail = 0
         seen_sig = set()
+        if crashed is not None:
+            call = crashed['script'][-1][2:]
+            if crashed['died_again']:
+                if V.failing_input('C14:%s:process-died' % call.split()[0],
+                                   'history %s: the library aborts / crashes / hangs instead of returning the documented result (%s)'
+                                   % (' ; '.join(crashed['script']), crashed['documented']), crashed, tag='crash'):
+                    new_fail += 1
+            else:
+                V.broken_tie('harness process died in the long run but not on the isolated history', crashed)
         for tag, i, history, c, ls, why in prop:
             call = history[-1][2:]
             sig = signature(call, why)
